@@ -139,6 +139,11 @@ def param_from_spec(s):
 def build(workload):
     """A brand-new Graph from a spec (shares no object with anything else)."""
     vertices = [vertex_from_spec(v) for v in workload["vertices"]]
+    # two vertices may have been constructed from one and the same pose object (a user passing the same initial guess twice)
+    by_id = {v.id: v for v in vertices}
+    for spec, v in zip(workload["vertices"], vertices):
+        if spec.get("alias_of") is not None and spec["alias_of"] in by_id and by_id[spec["alias_of"]] is not v:
+            v.pose = by_id[spec["alias_of"]].pose
     edges = [edge_from_spec(e) for e in workload["edges"]]
     g = Graph(edges, vertices)
     params = workload.get("params")
@@ -321,6 +326,8 @@ def gen_opt_workload(rng, opts=None):
         "allow_two_components": True,
         "init_noise": ["tiny", "moderate", "moderate", "far"],
         "self_loops": False,
+        "alias_poses": 0.0,
+        "asym_information": 0.0,
     }
     o.update(opts or {})
     family = rng.choice(o["families"])
@@ -495,6 +502,24 @@ def gen_opt_workload(rng, opts=None):
         t, truth, role = verts[k]
         init = boxplus(truth, rand_delta(rng, t, tn * scale, rn)) if role != "isolated" else truth
         vspecs.append({"id": ids[k], "pose": pose_to_spec(init), "fixed": False, "role": role})
+    if o["alias_poses"] and rng.random() < o["alias_poses"] and nv >= 2:
+        # a pair of same-type vertices shares one pose object (same numbers, same object)
+        a = rng.randrange(nv)
+        same = [k for k in range(nv) if k != a and vspecs[k]["pose"]["t"] == vspecs[a]["pose"]["t"]]
+        if same:
+            b = rng.choice(same)
+            vspecs[b]["pose"] = dict(vspecs[a]["pose"])
+            vspecs[b]["alias_of"] = vspecs[a]["id"]
+            meta["aliased_pose"] = True
+    if o["asym_information"]:
+        for e in edges:
+            info = np.array(e["information"], dtype=np.float64)
+            if info.shape[0] >= 2 and rng.random() < o["asym_information"]:
+                # what np.linalg.inv(cov) gives: symmetric only up to rounding
+                i, j = rng.sample(range(info.shape[0]), 2)
+                info[i, j] = math.nextafter(info[i, j], math.inf) if info[i, j] != 0 else 1e-17
+                e["information"] = info
+                meta["asym_information"] = True
     if rng.random() < 0.3:
         rng.shuffle(edges)
     especs = []
